@@ -30,6 +30,7 @@ ResultOk(e) ==
   KindId(s.kind) \in JKinds =>
     /\ ~e.panicked
     /\ On("allocs") => e.allocs = 0            \* C19: no heap allocation, whatever the size
+    /\ On("twin") => e.twin # 0                \* the > 4 GiB twin of this input agrees up to the shift (Pump.tla); -1: none
     /\ On("entries") => e.entries = 0          \* C16: every entry point of the kind gave this very result
     /\ On("slots") => e.slots_ok = 1           \* C17: canaries, untouched slots beyond the count
     /\ On("st") => StOf(e.st) = s.st
